@@ -459,6 +459,8 @@ pub fn run(seed: u64, out: &str, args: &[String]) -> bool {
         let mut shutdown_done = false;
         let shutdown_at: Option<u64> = if extended && rng.chance(35) { Some(length * (40 + rng.below(50)) / 100) } else { None };
         while hang.is_none() {
+            sink.flush();
+            crate::beat(None);
             let winding_down = step >= length;
             // candidate actions
             let mut candidates: Vec<String> = Vec::new();
